@@ -117,8 +117,14 @@ PROPS["C16"] = {
              "loop fed by a real otelstef.MetricsWriter through an in-memory chunk pipe and through loopback gRPC "
              "(stefgrpc.Client -> StreamServer) with a scripted consumer (accept / consumererror.NewPermanent / transient "
              "per batch, batches delimited by Flush); (iii) writer/reader RecordCount lockstep with small frame limits. "
-             "Each case records an event trace which must be a run of the Lean LTS and is evaluated directly against the "
-             "property. A case is non-trivial when it has at least one permanently rejected batch and at least two "
+             "Each case records an event trace which must be a run of the Lean LTS (the tick branch is three observable "
+             "steps: load of nextAckID, at most one bad-data response, acknowledgement; where the log does not tell whether "
+             "a bad-data response was sent from the tick branch or from the outer select the lineariser tries both) and is "
+             "evaluated directly against the property (ack-regress, ack-before-bad-report, ack-ahead, bad-range-*, ...). "
+             "The schedules that provoked the two races repaired by 3888867 (a response held by the stream while a rejected "
+             "and then an accepted batch arrive) are still generated: stat race-windows counts their occurrences, "
+             "tick-branch-bad-data the traces certified through the tick branch's own bad-data path. A case is "
+             "non-trivial when it has at least one permanently rejected batch and at least two "
              "responses; distinct by hash of its event trace"),
     "trusted_base": RECV_TB,
     "assumptions": [
@@ -128,14 +134,17 @@ PROPS["C16"] = {
     ],
 }
 PROPS["C16"]["level_text"] = (
-    "PARTIAL. Theorems over every run (every interleaving of decoding loop, Responder select and response stream, every "
-    "consumer-outcome sequence, batch size and send-failure point) of the Lean LTS transcribing onStream + Responder.Run as "
-    "written: lockstep of writer/reader record counters; ack <= decoded in every run; ack_after_consume, ack_monotone and "
-    "bad_batch_once_exact are FALSE for the code as written (negations proved from the run observed on the real code; "
-    "known findings ack-before-bad-report, ack-regress, bad-range-off-by-one) and proved in _partial form under explicit "
-    "excluding hypotheses; stream_continues. Real goroutine interleavings are only sampled by h_recv (the recorded traces "
-    "must be runs of the model and are checked directly against the property); the theorems are about every interleaving "
-    "of the model, not of the Go runtime.")
+    "PARTIAL. Theorems over every run (every interleaving of decoding loop, the Responder's outer select and the inner "
+    "select of its tick branch, and the response stream; every consumer-outcome sequence, batch size and send-failure "
+    "point) of the Lean LTS transcribing onStream + Responder.Run / sendBadDataResponse as written: lockstep of "
+    "writer/reader record counters; ack_le_decoded; ack_after_consume (+ per record id) and ack_history (every "
+    "successfully sent AckRecordId k: each id 1..k lies in a batch that was accepted, or permanently rejected and whose "
+    "exact range is in a successfully sent response no later than that ack), ack_monotone, last_acked_monotone - all "
+    "unconditional invariants of the LTS since fix 3888867 (before it their negations were proved from a race run; "
+    "findings ack-before-bad-report, ack-regress, and bad-range-off-by-one fixed by 3f3aa6e, are now 'fixed:'); "
+    "bad_batch_once_exact; bad_ack_never_clamped (the new clamp is dead code in reachable states); stream_continues. "
+    "Real goroutine interleavings are only sampled by h_recv (the recorded traces must be runs of the model and are "
+    "checked directly against the property); the theorems are about every interleaving of the model, not of the Go runtime.")
 
 PROPS["C19"] = {
     "lean_modules": ["Stef.Props.C19"],
